@@ -223,12 +223,16 @@ theorem rootState_inv (dim maxSize : Nat) : GInv dim maxSize (rootState dim maxS
     omega
   · intro h; rw [hnx] at h; cases h
 
-/-- one step of the search keeps the invariant -/
-theorem childFor_inv {dim maxSize : Nat} {s c : GenState} {i d e : Nat}
+/-- one step of the search keeps the invariant (stated on the intermediate values) -/
+theorem step_inv {dim maxSize : Nat} {s c : GenState} {i d e : Nat} {ds0 ds1 : DSetData}
+    {irs0 : Array Bool}
     (hs : GInv dim maxSize s) (hnext : s.next = some (i, d)) (hmax : e ≤ maxSize)
-    (hsucc : e ≤ s.dset.size + 1)
-    (h : childFor maxSize s i d e = .ok (some c)) : GInv dim maxSize c := by
-  obtain ⟨ds0, irs0, ds1, hg, hset, himpl, hcan, hnx⟩ := childFor_ok h
+    (hg : (s.dset.size < e ∧ e < s.isRemapStart.size ∧ ds0 = s.dset.grow 1 ∧
+            irs0 = s.isRemapStart.setIfInBounds e true) ∨
+          (¬ s.dset.size < e ∧ ds0 = s.dset ∧ irs0 = s.isRemapStart))
+    (hset : setC ds0 i d e = .ok ds1) (himpl : checkImpl ds1 i d = .ok (some c.dset))
+    (hirs : irs0.size = maxSize + 1 → c.isRemapStart.size = maxSize + 1)
+    (hnx : nextUndefined c.dset i d = .ok c.next) : GInv dim maxSize c := by
   obtain ⟨hi, hd1, hd2, hz, hpre⟩ := hs.next_some i d hnext
   -- the set after `grow`
   have h0 : ValidPartialSet ds0 ∧ ds0.dim = dim ∧ s.dset.size ≤ ds0.size ∧ ds0.size ≤ maxSize ∨
@@ -312,8 +316,7 @@ theorem childFor_inv {dim maxSize : Nat} {s c : GenState} {i d e : Nat}
       · exact Or.inr (Or.inl h2)
       · exact Or.inr (Or.inr ⟨h1, h2⟩)
   refine ⟨hv2, hdimc, by rw [hszc]; omega, Or.inl hmaxpos, ?_, ?_, ?_, ?_⟩
-  · have := canonLoop_size _ _ _ _ _ hcan
-    rw [this]; exact hirs0
+  · exact hirs hirs0
   · -- linked
     intro x hx2' hxs
     by_cases hxo : x ≤ s.dset.size
@@ -352,6 +355,14 @@ theorem childFor_inv {dim maxSize : Nat} {s c : GenState} {i d e : Nat}
     · exact hbefore i' d' b1 b2 b3 (Or.inr h1)
     · exact hnone (by rw [← hr2]; exact hn) i' d' (by rw [hdimc]; exact b1) b2 b3 h1
 
+/-- one step of the search keeps the invariant -/
+theorem childFor_inv {dim maxSize : Nat} {s c : GenState} {i d e : Nat}
+    (hs : GInv dim maxSize s) (hnext : s.next = some (i, d)) (hmax : e ≤ maxSize)
+    (h : childFor maxSize s i d e = .ok (some c)) : GInv dim maxSize c := by
+  obtain ⟨ds0, irs0, ds1, hg, hset, himpl, hcan, hnx⟩ := childFor_ok h
+  exact step_inv hs hnext hmax hg hset himpl
+    (fun h => by rw [canonLoop_size _ _ _ _ _ hcan]; exact h) hnx
+
 theorem children_inv {dim maxSize : Nat} {s : GenState} (hs : GInv dim maxSize s) {c : Node}
     (hc : c ∈ children maxSize (.st s)) :
     c = .panicked ∨ ∃ c', c = .st c' ∧ GInv dim maxSize c' := by
@@ -372,7 +383,7 @@ theorem children_inv {dim maxSize : Nat} {s : GenState} (hs : GInv dim maxSize s
       have hr := List.mem_range'_1.1 he
       have hm1 : min (s.dset.size + 1) maxSize ≤ maxSize := Nat.min_le_right _ _
       have hm2 : min (s.dset.size + 1) maxSize ≤ s.dset.size + 1 := Nat.min_le_left _ _
-      exact Or.inr ⟨c', rfl, childFor_inv hs hnext (by omega) (by omega) hfor⟩
+      exact Or.inr ⟨c', rfl, childFor_inv hs hnext (by omega) hfor⟩
     · left; simpa using hc
 
 /-- the invariant holds in every state of the search tree -/
